@@ -43,7 +43,7 @@ Cases == IF Shard = 4 THEN FieldCases ELSE StrCases(Shard)
 SetJ(S) == SetToSeq(S)
 ConfigJson == [i \in 1..Len(Configs) |->
     [esc |-> Configs[i].esc, wm |-> Configs[i].wm, ws |-> Configs[i].ws, add |-> SetJ(Configs[i].add),
-     filt |-> SetJ(Configs[i].filt), quote |-> Configs[i].quote]]
+     filt |-> SetJ(Configs[i].filt), quote |-> Configs[i].quote, cq |-> Configs[i].cq]]
 FieldConfigJson == [i \in 1..Len(FieldConfigs) |->
     [quote |-> FieldConfigs[i].quote, esc |-> FieldConfigs[i].esc,
      escset |-> SetJ(FieldConfigs[i].escset), always |-> FieldConfigs[i].always]]
